@@ -38,6 +38,9 @@ def BOUND(tier):
 
 def cases(tier):
     for cmd in SIG.DATA_COMMANDS:
+        for n in D.arities(cmd):
+            yield ("large", cmd, n)
+    for cmd in SIG.DATA_COMMANDS:
         dts0 = ("float",) if SIG.input_fuzz(cmd) == "fz" else ("float", "int")
         for n in D.arities(cmd):
             dts = dts0 + (("float32",) if n <= 2 else ())
@@ -46,6 +49,69 @@ def cases(tier):
                     for miss in (0, 1):
                         for size in (4, 6):
                             yield (cmd, n, pi, dt, miss, size, tier)
+
+
+def _run_large(case):
+    """named LARGE sizes (2^16+17 cells as a vector, 257x256 and 300x250 as grids): rearranging the cells of all inputs alike (reversal,
+    rotation, one fixed scrambling) rearranges the result alike; the grid result is the vector result reshaped"""
+    _, cmd, n = case
+    fz = SIG.input_fuzz(cmd) == "fz"
+    lat = numpy.array([-1.0, -0.5, 0.0, 0.25, 0.75, 1.0] if fz else [-2.0, 0.0, 0.25, 1.0, 3.0, 5.0, 7.5])
+    viols, outcomes = [], {}
+    evals = judged = 0
+    sample = None
+    tol = 1e-9 if cmd in STAT else 0.0
+    for size, grid in ((65536 + 17, None), (257 * 256, (257, 256)), (75000, (300, 250))):
+        idx = numpy.arange(size)
+        cols = []
+        for i in range(n):
+            v = lat[(idx * (7 + 2 * i) + 3 * i + idx // 1000) % len(lat)]
+            m = (idx % 17) == (i + 3)
+            cols.append(numpy.ma.MaskedArray(v.copy(), mask=m))
+        perms = [("reversed", idx[::-1].copy()), ("rotated", numpy.roll(idx, 30011)), ("scrambled", numpy.random.RandomState(12345).permutation(size))]
+        for params in D.presets_small(cmd, n):
+            base = D.execute(cmd, [numpy.ma.MaskedArray(c.data.copy(), mask=c.mask.copy()) for c in cols], params)
+            evals += 1
+            tag0 = {"cmd": cmd, "params": params, "cells": size}
+            sample = tag0
+            if base[0] == "err" or not isinstance(base[1], numpy.ndarray) or base[1].shape != (size,):
+                if base[0] != "err":
+                    viols.append(V("C05:%s:shape-changed:large" % cmd, "%s returned shape %r for vectors of %d cells" % (cmd, getattr(base[1], "shape", None), size), **tag0))
+                outcomes["%s:large:err" % cmd] = outcomes.get("%s:large:err" % cmd, 0) + 1
+                continue
+            bm = numpy.ma.getmaskarray(base[1])
+            bd = numpy.where(bm, 0.0, numpy.ma.getdata(base[1]).astype(float))
+            variants = [(name, pm, None) for name, pm in perms]
+            if grid is not None:
+                variants.append(("grid", idx, grid))
+            for name, pm, shape in variants:
+                arrays = [numpy.ma.MaskedArray(c.data[pm].copy(), mask=c.mask[pm].copy()) for c in cols]
+                if shape is not None:
+                    arrays = [a.reshape(shape) for a in arrays]
+                res = D.execute(cmd, arrays, params)
+                evals += 1
+                judged += 1
+                tag = dict(tag0, rearrangement=name, shape=list(shape) if shape else [size])
+                if res[0] == "err":
+                    viols.append(V("C05:%s:raised:%s:large" % (cmd, D.error_name(res[1])), "%s fails on the %s arrangement of %d cells but works on the base arrangement" % (cmd, name, size), **tag))
+                    continue
+                r = res[1]
+                if not isinstance(r, numpy.ndarray) or tuple(r.shape) != (tuple(shape) if shape else (size,)):
+                    viols.append(V("C05:%s:shape-changed:large" % cmd, "%s returned shape %r" % (cmd, getattr(r, "shape", None)), **tag))
+                    continue
+                rm = numpy.ma.getmaskarray(r).ravel()
+                rd = numpy.where(rm, 0.0, numpy.ma.getdata(r).astype(float).ravel())
+                if tol:
+                    bad = (rm != bm[pm]) | (numpy.abs(rd - bd[pm]) > tol * numpy.maximum(1.0, numpy.abs(bd[pm])))
+                else:
+                    bad = (rm != bm[pm]) | (rd != bd[pm])
+                if bad.any():
+                    i = int(numpy.argmax(bad))
+                    viols.append(V("C05:%s:not-equivariant:large" % cmd, "%s on %d cells, %s arrangement: %d cells differ; cell %d is %r, base cell %d is %r" % (
+                        cmd, size, name, int(bad.sum()), i, None if rm[i] else float(rd[i]), int(pm[i]), None if bm[pm[i]] else float(bd[pm[i]])), **tag))
+                k = "%s:large:%s" % (cmd, "bad" if bad.any() else "ok")
+                outcomes[k] = outcomes.get(k, 0) + 1
+    return {"evals": max(evals, 1), "nontrivial": judged, "judged": judged, "viols": viols[:30], "outcomes": outcomes, "sample": sample}
 
 
 def _cells(cmd, dt, n, size, miss):
@@ -72,6 +138,8 @@ def _perms(size, tier):
 
 
 def run(case):
+    if case[0] == "large":
+        return _run_large(tuple(case))
     cmd, n, pi, dt, miss, size, tier = tuple(case)
     params = D.presets_small(cmd, n)[pi]
     cols = _cells(cmd, dt, n, size, miss)
